@@ -14,8 +14,14 @@ import shutil
 import tempfile
 
 
-class Crash(Exception):
-  pass
+class Crash(BaseException):
+  """The process dies here.  Not an `Exception`: a kill does not run `except Exception:` handlers (context managers and
+  `finally:` blocks still run in this model -- their file-system effects after the crash point raise Crash again)."""
+
+
+def VSCALE(v):
+  """virtual size -> stored (scaled) size; identity unless a harness represents large blocks by a few bytes (C19)."""
+  return v
 
 
 class BaseFS:
@@ -49,7 +55,7 @@ class ModelFS(BaseFS):
   # primitive operations
   def create(self, path):
     self.tick('create ' + path)
-    h = {'data': b''}
+    h = {'data': b'', 'vsize': 0}
     self.files[path] = h
     return h
 
@@ -57,13 +63,29 @@ class ModelFS(BaseFS):
     self.tick('open-append ' + path)
     return self.files[path]
 
-  def append(self, handle, data):
+  def append(self, handle, data, vlen=None, pos=None, vpos=None):
+    """Write `data` at stored offset `pos` (default: the end); `vlen`/`vpos` are the virtual length / offset."""
+    vlen = len(data) if vlen is None else vlen
+    old = handle['data']
+    pos = len(old) if pos is None else pos
+    vpos = handle.get('vsize', len(old)) if vpos is None else vpos
+
+    def put(d, v):
+      handle['data'] = old[:pos] + d + old[pos + len(d):]
+      handle['vsize'] = max(handle.get('vsize', len(old)), vpos + v)
     try:
       self.tick('write')
     except Crash:
-      handle['data'] = handle['data'] + data[:min(self.cut, len(data))]
+      k = min(self.cut, len(data))
+      put(data[:k], k if vlen == len(data) else 0)
       raise
-    handle['data'] = handle['data'] + data
+    put(data, vlen)
+
+  def truncate(self, handle, ssize, vsize):
+    self.tick('truncate')
+    d = handle['data']
+    handle['data'] = d[:ssize] + b'\0' * max(0, ssize - len(d))
+    handle['vsize'] = vsize
 
   def close(self, handle):
     pass
@@ -95,7 +117,20 @@ class ModelFS(BaseFS):
     return sorted(p for p in self.files if fnmatch.fnmatchcase(p, pattern))
 
   def size(self, path):
-    return len(self.read(path))
+    if path not in self.files:
+      raise FileNotFoundError(path)
+    h = self.files[path]
+    return h.get('vsize', len(h['data']))
+
+
+class _DiskHandle:
+  """A real unbuffered file object plus the bookkeeping DiskFS needs (current path, virtual size)."""
+
+  def __init__(self, f, path):
+    self.f, self.vpath, self.vsize = f, [path], 0
+
+  def __getattr__(self, name):
+    return getattr(self.f, name)
 
 
 class DiskFS(BaseFS):
@@ -105,6 +140,8 @@ class DiskFS(BaseFS):
   def __init__(self):
     super().__init__()
     self.root = tempfile.mkdtemp(prefix='vf_fs_')
+    self.vsizes = {}       # real path -> virtual size, only where it differs from the real size (scaled payloads)
+    self.handles = []      # open writers (a rename moves the file they write to)
 
   def _p(self, path):
     return os.path.join(self.root, path.lstrip('/'))
@@ -112,19 +149,46 @@ class DiskFS(BaseFS):
   def create(self, path):
     self.tick('create ' + path)
     os.makedirs(os.path.dirname(self._p(path)), exist_ok=True)
-    return open(self._p(path), 'wb', buffering=0)
+    self.vsizes.pop(self._p(path), None)
+    f = _DiskHandle(open(self._p(path), 'wb', buffering=0), self._p(path))
+    self.handles.append(f)
+    return f
 
   def open_append(self, path):
     self.tick('open-append ' + path)
-    return open(self._p(path), 'ab', buffering=0)
+    f = _DiskHandle(open(self._p(path), 'r+b', buffering=0), self._p(path))
+    f.seek(0, 2)
+    self.handles.append(f)
+    return f
 
-  def append(self, handle, data):
+  def _bump(self, handle, vend):
+    p = handle.vpath[0]
+    v = max(self.vsizes.get(p, 0), vend)
+    self.vsizes[p] = v
+    handle.vsize = v
+
+  def append(self, handle, data, vlen=None, pos=None, vpos=None):
+    vlen = len(data) if vlen is None else vlen
+    if pos is not None:
+      handle.seek(pos)
+    else:
+      handle.seek(0, 2)
+    vpos = getattr(handle, 'vsize', self.vsizes.get(handle.vpath[0], 0)) if vpos is None else vpos
     try:
       self.tick('write')
     except Crash:
-      handle.write(data[:min(self.cut, len(data))])
+      k = min(self.cut, len(data))
+      handle.write(data[:k])
+      self._bump(handle, vpos + (k if vlen == len(data) else 0))
       raise
     handle.write(data)
+    self._bump(handle, vpos + vlen)
+
+  def truncate(self, handle, ssize, vsize):
+    self.tick('truncate')
+    handle.truncate(ssize)
+    self.vsizes[handle.vpath[0]] = vsize
+    handle.vsize = vsize
 
   def close(self, handle):
     handle.close()
@@ -138,12 +202,19 @@ class DiskFS(BaseFS):
       raise FileNotFoundError(src)
     self.tick('rename %s %s' % (src, dst))
     os.replace(self._p(src), self._p(dst))
+    self.vsizes.pop(self._p(dst), None)
+    if self._p(src) in self.vsizes:
+      self.vsizes[self._p(dst)] = self.vsizes.pop(self._p(src))
+    for h in self.handles:          # an open writer follows its file
+      if h.vpath[0] == self._p(src):
+        h.vpath[0] = self._p(dst)
 
   def remove(self, path):
     if not os.path.exists(self._p(path)):
       raise FileNotFoundError(path)
     self.tick('remove ' + path)
     os.remove(self._p(path))
+    self.vsizes.pop(self._p(path), None)
 
   def exists(self, path):
     return os.path.exists(self._p(path))
@@ -159,7 +230,8 @@ class DiskFS(BaseFS):
     return sorted('/' + os.path.relpath(p, self.root) for p in _glob.glob(self._p(pattern)))
 
   def size(self, path):
-    return os.path.getsize(self._p(path))
+    real = os.path.getsize(self._p(path))
+    return self.vsizes.get(self._p(path), real)
 
   def cleanup(self):
     shutil.rmtree(self.root, ignore_errors=True)
@@ -180,15 +252,26 @@ class VBytes(bytes):
 
 
 class _Writer:
-  def __init__(self, fs, path, text, append=False):
+  """A buffered binary/text writer with a file position (stored offset `pos`, virtual offset `vpos`)."""
+
+  def __init__(self, fs, path, text, append=False, exclusive=False):
     self.fs, self.path, self.text = fs, path, text
+    if exclusive and fs.exists(path):
+      raise FileExistsError(17, 'File exists', path)
     if append and fs.exists(path):
       self.handle = fs.open_append(path)
+      self.pos, self.vpos = len(fs.read(path)), fs.size(path)
     else:
       self.handle = fs.create(path)
+      self.pos, self.vpos = 0, 0
     self.closed = False
     self.pending = b''
     self.pending_v = 0
+
+  def _emit(self, out, vlen):
+    pos, vpos = self.pos, self.vpos
+    self.pos, self.vpos = pos + len(out), vpos + vlen
+    self.fs.append(self.handle, out, vlen, pos, vpos)
 
   def write(self, data):
     if self.text:
@@ -199,14 +282,34 @@ class _Writer:
       self.pending = self.pending + data        # memory only: not an effect
       self.pending_v += vlen
     else:
-      out, self.pending, self.pending_v = self.pending + data, b'', 0
-      self.fs.append(self.handle, out)
+      out, v, self.pending, self.pending_v = self.pending + data, self.pending_v + vlen, b'', 0
+      self._emit(out, v)
     return len(data)
 
   def flush(self):
     if self.pending:
-      out, self.pending, self.pending_v = self.pending, b'', 0
-      self.fs.append(self.handle, out)
+      out, v, self.pending, self.pending_v = self.pending, self.pending_v, b'', 0
+      self._emit(out, v)
+
+  def tell(self):
+    return self.vpos + self.pending_v
+
+  def seek(self, offset, whence=0):
+    self.flush()
+    if whence == 0 and offset == 0:
+      self.pos = self.vpos = 0
+    elif whence == 2 and offset == 0:
+      self.pos, self.vpos = len(self.fs.read(self.path)) if self.fs.exists(self.path) else self.pos, self.fs.size(self.path) if self.fs.exists(self.path) else self.vpos
+    elif not (whence == 1 and offset == 0):
+      raise NotImplementedError('seek(%r, %r) is outside the file model' % (offset, whence))
+    return self.vpos
+
+  def truncate(self, size=None):
+    """Resize to `size` bytes (default: the current position); the position does not move (as in io)."""
+    self.flush()
+    vsize = self.vpos if size is None else size
+    self.fs.truncate(self.handle, VSCALE(vsize), vsize)
+    return vsize
 
   def close(self):
     if not self.closed:
@@ -237,8 +340,8 @@ class _Reader(io.BytesIO):
 
 
 def open_file(fs, path, mode='r'):
-  if 'w' in mode or 'a' in mode:
-    return _Writer(fs, path, 'b' not in mode, append='a' in mode)
+  if 'w' in mode or 'a' in mode or 'x' in mode:
+    return _Writer(fs, path, 'b' not in mode, append='a' in mode, exclusive='x' in mode)
   data = fs.read(path)
   if 'b' in mode:
     return _Reader(data)
